@@ -317,7 +317,8 @@ def _real_wallet(ex, key_type):
     S = bytes(ex.bytes('secret', 32))
     d = tempfile.mkdtemp(prefix='c16w')
     hk = HDKey(S, chain=bytes(ex.inp.get('chain', b'\x11' * 32)), witness_type='segwit') if key_type == 'bip32' else HDKey(S, key_type='single', witness_type='segwit')
-    w = Wallet.create('w', keys=hk, network='bitcoin', witness_type='segwit', db_uri='sqlite:///%s/w.db' % d)
+    w = Wallet.create('w', keys=hk, network='bitcoin', witness_type='segwit', db_uri='sqlite:///%s/w.db' % d,
+                      **({'scheme': 'single'} if key_type == 'single' else {}))
     if key_type == 'bip32':
         w.get_key()
     return w, S, d
